@@ -10,8 +10,15 @@ Ops (one session per `new`):
   `shared close <h>`             → `ok u=<underlying closes> rel=<released parked reads>`
   `shared read <h>`              → `data` | `pending` | `err:closed` | `err:timeout`
   `shared write <h>`             → `ok` | `err:closed`
-  `shared setrd <h> past|zero`   → `ok` | `err:closed`
-  `shared setwd <h>`             → `ok` | `err:closed`
+  `shared write <h>`             … also `err:timeout` (the underlying write failed under a write deadline)
+  `shared writeap <h>`           the same through `WriteToAddrPort` when the handle has it (kind udpap); same model op
+  `shared setrd <h> past|zero|future` → `ok` | `err:closed`      (SetReadDeadline)
+  `shared setwd <h> [past|zero]` → `ok` | `err:closed`            (SetWriteDeadline; no argument = zero)
+  `shared setd <h> past|zero`    → `ok` | `err:closed`            (SetDeadline)
+  `shared abort <h>`             → `ok u=<…> rel=<…>` | `err:closed u=<…> rel=0`
+                                    (the candidateBase.abortIO sequence: SetDeadline(now), abortWrite, Close)
+The kind selects the model of the underlying connection: `udp` / `udpap` ignore a forwarded SetWriteDeadline
+(udpMuxedConn), `tcp` and `fake` honour it for every handle (tcpPacketConn; the harness's fake).
   `shared feed`                  → `ok` | `ok rel=h<k>` | `skip`
 The model output is `IceModel.SharedConn.step`; the monitor (`IceSpec.C13.sharedViolation`) is fed
 with the IMPLEMENTATION's outputs.
@@ -47,8 +54,15 @@ def obsOf (op : Op) (impl : String) : Option SObs :=
     | _ => none
   | .read h => some (.io h .read (parseIO impl))
   | .write h => some (.io h .write (parseIO impl))
-  | .setrd h _ => some (.io h .setrd (parseIO impl))
-  | .setwd h => some (.io h .setwd (parseIO impl))
+  | .setrd h p => some (.dl h true false p (parseIO impl))
+  | .setwd h p => some (.dl h false true p (parseIO impl))
+  | .setd h p => some (.dl h true true p (parseIO impl))
+  | .abort h =>
+    match impl.splitOn " " with
+    | [r, u, k] => match parseKV "u=" u, parseKV "rel=" k with
+      | some u, some k => some (.aborted h (parseIO r) u k)
+      | _, _ => none
+    | _ => none
   | .feed =>
     if impl = "ok" then some (.fed none)
     else if impl = "skip" then some .skip
@@ -62,15 +76,19 @@ def parseOp (toks : List String) : Option Op :=
   | ["close", h] => h.toNat?.map Op.close
   | ["read", h] => h.toNat?.map Op.read
   | ["write", h] => h.toNat?.map Op.write
+  | ["writeap", h] => h.toNat?.map Op.write
   | ["setrd", h, v] => h.toNat?.bind (fun h => if v = "past" then some (.setrd h true) else if v = "zero" || v = "future" then some (.setrd h false) else none)
-  | ["setwd", h] => h.toNat?.map Op.setwd
+  | ["setwd", h] => h.toNat?.map (fun h => Op.setwd h false)
+  | ["setwd", h, v] => h.toNat?.bind (fun h => if v = "past" then some (.setwd h true) else if v = "zero" then some (.setwd h false) else none)
+  | ["setd", h, v] => h.toNat?.bind (fun h => if v = "past" then some (.setd h true) else if v = "zero" then some (.setd h false) else none)
+  | ["abort", h] => h.toNat?.map Op.abort
   | ["feed"] => some .feed
   | _ => none
 
 -- @component shared
 def step (s : State) (toks : List String) (impl : String) : State × Res :=
   match toks with
-  | ["new", _kind] => ({}, { model := "ok", prop := "C13" })
+  | ["new", kind] => ({ model := IceModel.SharedConn.State.initK (kind = "tcp" || kind = "fake") }, { model := "ok", prop := "C13" })
   | _ =>
     match parseOp toks with
     | none => (s, bad "shared: unknown op")
